@@ -284,6 +284,9 @@ func genBlock(t *rapid.T) BlockCase {
 				op.CPs = append(op.CPs, rapid.IntRange(0, 2).Draw(t, "cp") == 0)
 			}
 			c.Ops = append(c.Ops, op)
+		} else if rapid.IntRange(0, 3).Draw(t, "trunc") == 0 {
+			// a suffix truncation through the middleware: later checkpoints land on lower indexes
+			c.Ops = append(c.Ops, BOp{K: "deltail", N: rapid.IntRange(1, 4).Draw(t, "dn")})
 		} else {
 			c.Ops = append(c.Ops, BOp{K: "release", N: rapid.IntRange(1, 3).Draw(t, "rn")})
 		}
@@ -338,6 +341,7 @@ func runBlock(c BlockCase) (res common.Result) {
 		}
 	}
 	corrupted := false
+	truncated := false
 	for i, op := range c.Ops {
 		switch op.K {
 		case "append":
@@ -389,10 +393,33 @@ func runBlock(c BlockCase) (res common.Result) {
 				default:
 				}
 			}
+		case "deltail":
+			if next <= 1 {
+				continue
+			}
+			min := uint64(1)
+			if next > uint64(op.N) {
+				min = next - uint64(op.N)
+			}
+			if leader != nil {
+				if err := leader.DeleteRange(min, next-1); err != nil {
+					res.Fail = common.Failf("harness", "leader DeleteRange: %v", err)
+					close(tokens)
+					return
+				}
+			}
+			if err := v.DeleteRange(min, next-1); err != nil {
+				res.Fail = common.Failf("deleterange-err", "step %d: DeleteRange(%d,%d) through the verifier = %v", i, min, next-1, err)
+				close(tokens)
+				return
+			}
+			next = min
+			truncated = true
 		}
 	}
 	// release everything and let the verifier settle
 	close(tokens)
+	idleSeen := 0
 	for i := 0; ; i++ {
 		s := coll.Summary().Counters
 		if s["ranges_verified"]+s["dropped_reports"] >= s["checkpoints_written"] {
@@ -400,8 +427,20 @@ func runBlock(c BlockCase) (res common.Result) {
 		}
 		if i < 100 {
 			runtime.Gosched()
-		} else {
-			time.Sleep(20 * time.Microsecond)
+			continue
+		}
+		time.Sleep(20 * time.Microsecond)
+		if i%2000 == 0 {
+			if VerifiersIdle() {
+				idleSeen++
+			} else {
+				idleSeen = 0
+			}
+			s = coll.Summary().Counters
+			if idleSeen >= 2 && s["ranges_verified"]+s["dropped_reports"] < s["checkpoints_written"] {
+				res.Fail = common.Failf("report-accounting", "the verifier is idle with nothing queued, yet %d checkpoints were written and only %d reports delivered + %d drops counted: a checkpoint produced neither", s["checkpoints_written"], s["ranges_verified"], s["dropped_reports"])
+				return
+			}
 		}
 	}
 	for {
@@ -448,7 +487,7 @@ func runBlock(c BlockCase) (res common.Result) {
 			res.Fail = common.Failf("report-unknown-range", "delivered report #%d for %v is not one of the remaining triggered ranges %v (order/duplication)", di, r.Range, triggered)
 			return
 		}
-		if r.Err != nil && !corrupted {
+		if r.Err != nil && !corrupted && !truncated {
 			res.Fail = common.Failf("false-alarm", "clean history: report %v carries Err=%v", r.Range, r.Err)
 			return
 		}
@@ -467,6 +506,9 @@ func runBlock(c BlockCase) (res common.Result) {
 	}
 	if afterDrop {
 		res.Classes = append(res.Classes, "delivery-after-drop")
+	}
+	if truncated {
+		res.Classes = append(res.Classes, "truncation-while-blocked")
 	}
 	if c.Follower {
 		res.Classes = append(res.Classes, "blocked-follower")
